@@ -349,6 +349,15 @@ func c08Jobs(tier string) []Job {
 		vars = append(vars, map[string]any{"init": init})
 	}
 	jobs = append(jobs, chunk(map[string]any{"fix": "std", "cwd": "w"}, hs, vars, 4)...)
+	// recursive watches: the same entries reported before and after their directory (and its parent) was renamed -
+	// whatever a Watcher remembers about a name from the last event must not outlive the rename
+	for _, h := range [][]string{
+		{"write w/r/sub/f", "mv w/r/sub w/r/moved", "write w/r/moved/f", "write w/r/moved/d/f", "mv w/r/moved w/r/sub", "write w/r/sub/f", "write w/r/sub/d/f"},
+		{"write w/r/sub/d/f", "mv w/r/sub w/r/moved", "write w/r/moved/d/f", "touch w/r/moved/d/t", "mv w/r/moved/d w/r/moved/e", "write w/r/moved/e/f", "rm w/r/moved/e/t"},
+		{"write w/r/dir1/f", "write w/r/dir10/f", "mv w/r/dir1 w/r/dirA", "write w/r/dirA/f", "write w/r/dir10/f"},
+	} {
+		jobs = append(jobs, Job{Family: "seq-batch", Params: map[string]any{"family": "rec", "base": map[string]any{"init": []string{"RA w/r", "RA w/r2"}}, "histories": [][]string{h}}})
+	}
 	return jobs
 }
 
@@ -432,6 +441,14 @@ func c11Jobs(tier string) []Job {
 				lq = append(lq, []string{mv, api, "touch w/d2/later"})
 				lqv = append(lqv, map[string]any{"cap": c, "late": "q"})
 			}
+		}
+	}
+	// time passes between the two halves of a move (the reader is parked on the Rename, nobody receives for a while),
+	// and between moves: correlation does not depend on the clock
+	for _, secs := range []string{"2", "90", "100000"} {
+		for _, c := range []int{0, 1} {
+			lq = append(lq, []string{"mv w/d/a w/d2/a", "tick " + secs, "touch w/d2/later"}, []string{"mv w/d/a w/d/c ;; tick " + secs + " ;; mv w/d/b w/d2/b", "tick " + secs})
+			lqv = append(lqv, map[string]any{"cap": c, "late": "q"}, map[string]any{"cap": c, "late": "q"})
 		}
 	}
 	jobs = append(jobs, chunk(map[string]any{"fix": "std", "init": []string{"A w/d", "A w/d2", "A w/f"}}, lq, lqv, 8)...)
